@@ -445,4 +445,19 @@ def run_partition_edges(col):
                 okr, oku = True, True
             return not bad and okr and oku and du.shape == (n,), "solve/_solve.py solve: prescribed unknowns without their increment %s" % bad
         col.check("C07.O5", "partitioned solve, %s" % label, "du0 == ext0 - u0 on every prescribed unknown and K11 du1 == -r1 - K10 (ext0 - u0) on the free ones, also when one of the two sets is empty", chk)
+
+    # no prescribed values given (ext0=None: the prescribed unknowns are driven to zero) while the field carries non-zero values there --
+    # continuation from a state with moved boundaries: the increment -u0 the routine sets has to be the one the right-hand side accounts for
+    def chk_none():
+        log = []
+        solver = scenario.ScriptedSolver(log)
+        system = it.call(part, [fc, K, dof1, dof0, r], {})
+        du = npmodel.to_obj(np.asarray(it.call(solve, list(system), dict(ext0=None, solver=solver)))).reshape(-1)
+        sols = [e for e in log if e[0] == "solve"]
+        du0 = {int(j): P(du[j]) for j in dof0}
+        want = [-r[i] - sum((K.dense[i, j] * du0[int(j)] for j in dof0), ZERO) for i in dof1]
+        okr = len(sols) == 1 and all(is_zero(P(a) - b) for a, b in zip(np.asarray(sols[0][3]).reshape(-1), want))
+        return okr, "solve/_solve.py solve(ext0=None): the prescribed unknowns receive the increments %s but the right-hand side handed to the linear solver is not -r1 - K10 du0" % (
+            [ring.fmt(v, 2) for v in list(du0.values())[:3]])
+    col.check("C07.O5", "partitioned solve, ext0=None with non-zero prescribed unknowns", "whatever increment du0 the routine puts on the prescribed unknowns, the free unknowns solve K11 du1 == -r1 - K10 du0 (the reduced system)", chk_none)
     finish_info(col, it)
